@@ -148,6 +148,9 @@ class Types:
             u = self.typedefs(s)
             if u and u != s:
                 return self.parse(u)
+        if re.match(r'^[^()]*\(\*\)\s*\(.*\)$', s):
+            # pointer to function (the ec field of ex.c's excmds[]): one cell; the only supported use is the indirect call (see CallExpr)
+            return ('ptr', ('fn',))
         raise Unsupported('type %r' % s)
 
     def cells(self, t):
@@ -487,6 +490,14 @@ class Fn:
             callee, args = n['inner'][0], n['inner'][1:]
             while callee['kind'] in ('ImplicitCastExpr', 'ParenExpr'):
                 callee = callee['inner'][0]
+            if callee['kind'] == 'MemberExpr' and T.parse(qt(callee)) == ('ptr', ('fn',)):
+                # an indirect call through a function-pointer field of an object in memory (excmds[idx].ec(loc, cmd, arg, txt)): CLite has
+                # no function values, so it is printed as a call to the oracle index X_indirect (CLiteExt.callx) with the ADDRESS of the
+                # pointer cell as an extra first argument; such cells are VUndef in the initial memory and no store to them is translated
+                lvc = self.lvalue(callee)
+                if lvc[0] != 'mem':
+                    raise Unsupported('indirect call')
+                return '(ECall %s [%s])' % (self.tr.extern('indirect'), '; '.join([lvc[1]] + [self.rv(a) for a in args]))
             if callee['kind'] != 'DeclRefExpr' or callee['referencedDecl']['kind'] != 'FunctionDecl':
                 raise Unsupported('indirect call')
             name = callee['referencedDecl']['name']
@@ -931,6 +942,8 @@ class Translator:
             elif k == 'ImplicitValueInitExpr':
                 for _ in range(self.types.cells(t)):
                     cells.append(0)
+            elif k == 'DeclRefExpr' and n.get('referencedDecl', {}).get('kind') == 'FunctionDecl' and t == ('ptr', ('fn',)):
+                cells.append('VUndef')      # a function address has no CLite value (see the indirect call in CallExpr)
             else:
                 raise Unsupported('initializer %s of global %s' % (k, name))
         flat(vd['inner'][0], t)
